@@ -70,6 +70,7 @@ type HarnessRun struct {
 	solveTime              time.Duration
 	knownHits              map[string]int
 	maxFails               int
+	boundIsViolation       bool
 }
 
 type workItem struct {
@@ -122,6 +123,11 @@ func (h *HarnessRun) runPath(s *Solver, wi workItem) (res PathResult) {
 			case *pathEnd:
 				if strings.HasPrefix(v.reason, "bound-hit") {
 					res.Outcome = "bound-hit"
+					if h.boundIsViolation {
+						if m := x.currentModel(); m != nil {
+							res.Fails = append(res.Fails, FailRec{Msg: "panic: does not terminate within the recursion/step bound: " + v.reason + x.where(), Vector: x.vector(m), Named: x.namedVector(m), Observes: x.renderAllObs(m), Kind: "panic"})
+						}
+					}
 				} else if v.reason == "known" {
 					res.Outcome = "known"
 				} else {
